@@ -39,7 +39,7 @@ RULE = (
     "unreferenced member variants (Default-typed, untyped, Override-typed, orphan .rels, slide-like, directory entry); "
     "sliderename = reverse/rotate/gap/gap-reverse/all permutations (n<=3)/seeded injections into 1..2n+5; nocore; "
     "directory = extracted form. thorough: every location x {stream, path, directory} + all pairs (<= 40 locations) or "
-    "1000 seeded pairs per deck (no corpus deck has <= 40); quick: stratified seeded sample (~45 singles + 8 pairs per deck). Non-trivial: the fault "
+    "800 seeded pairs per deck (no corpus deck has <= 40); quick: stratified seeded sample (~45 singles + 8 pairs per deck). Non-trivial: the fault "
     "changes the reachable set, a relationship set, a content-type lookup path, the member set the loader must skip, "
     "or the physical reader. Distinct = (deck, faults, form). Non-packages: prefix classes of every/6 decks, synthetic "
     "garbage, structural removals, Word/Excel main types, each as stream/path(/directory)."
@@ -795,7 +795,7 @@ def deck_cases(rel, tier):
         cases += [([f], form, nt) for f, nt in locs for form in ("stream", "path", "dir")]
         pairs = list(itertools.combinations(range(len(locs)), 2))
         if len(locs) > 40:
-            pairs = rnd.sample(pairs, min(len(pairs), 1000))
+            pairs = rnd.sample(pairs, min(len(pairs), 800))
     else:
         quota = {"dangling": 12, "norels": 6, "ctcase": 9, "unknownct": 5, "extra": 4, "sliderename": 4, "nocore": 1}
         for kind, q in quota.items():
@@ -815,7 +815,7 @@ def plan(tier, seed):
     for rel in decks:
         path = os.path.join(env.REPO, rel)
         nm = len(zipfile.ZipFile(path).namelist())
-        cost = (2.0 * nm + os.path.getsize(path) / 20000.0) * (8 * nm + 1100 if tier == "thorough" else 50)  # ~ms: per-case cost x number of cases, both grow with the member count
+        cost = (2.0 * nm + os.path.getsize(path) / 20000.0) * (8 * nm + 900 if tier == "thorough" else 50)  # ~ms: per-case cost x number of cases, both grow with the member count
         k = max(1, min(24, int(round(cost / (90000.0 if tier == "thorough" else 3000.0)))))
         units += [{"kind": "deck", "deck": rel, "shard": j, "of": k, "cost": cost / k} for j in range(k)]
     nd = decks if tier == "thorough" else decks[seed % 6::6]
